@@ -839,6 +839,103 @@ static void union_case(Rng& r) {
   um.clear();
 }
 
+// ---------------------------------------------------------------- unions whose combined n crosses 2^32 / 2^33
+// Input sketches with a huge stream length are obtained cheaply: a valid sampling-mode image is taken and its
+// 8-byte n field (offset 8) is overwritten — a legitimate image of a sketch that has seen that many items (the
+// reader only requires n > k and h + r == k in that mode).  n must then add up exactly in 64 bits.
+static void huge_n_union_case(Rng& r) {
+  static const uint64_t P32 = 1ULL << 32, P33 = 1ULL << 33;
+  const uint64_t targets[] = {P32 - 1, P32, P32 + 1, 4296000000ULL, P32 + (r.next() % P32), P33 - 1, P33, P33 + 5, 3000000000ULL, 3 * P32 + 17};
+  const uint64_t target = targets[r.below(sizeof targets / sizeof targets[0])];
+  const int variant = static_cast<int>(r.below(3));   // aims at: 0 simple path, 1 pseudo-exact path, 2 migrate (decrease k) path
+  const size_t m = variant == 1 ? static_cast<size_t>(r.range(1, 3)) : static_cast<size_t>(r.range(2, 3));
+  const uint32_t common_k = static_cast<uint32_t>(r.range(10, 80));
+  const uint64_t eq_seed = r.next();
+  std::vector<UIn> ins(m);
+  std::string d = "huge-n union variant=" + std::to_string(variant) + " target_n=" + std::to_string(target) + " inputs=";
+  uint64_t remaining = target;
+  for (size_t i = 0; i < m; ++i) {
+    Feed f; f.hostile_ops = false; f.obs_every = 0; f.rf = static_cast<int>(r.below(4));
+    if (variant == 2) { f.k = static_cast<uint32_t>(r.range(8, 90)); f.kind = static_cast<int>(r.pick({K_UNIFORM, K_HEAVYTAIL, K_EXPSPREAD, K_GIANT})); f.n = f.k + 1 + r.below(5ull * f.k); }
+    else { f.k = common_k; f.kind = K_EQUAL; f.n = 3ull * common_k + (variant == 0 ? r.below(common_k) : 0); }
+    std::unique_ptr<VO> sk(new VO(f.k, static_cast<resize_factor>(f.rf)));
+    SkModel sm; sm.k = f.k; ReadOut ro;
+    Rng er(variant == 2 ? r.next() : eq_seed);
+    describe(d + "... building input " + std::to_string(i));
+    if (!feed_stream(er, sk, sm, f, &ro)) return;
+    // stamp the huge n into the image
+    const uint64_t share = i + 1 == m ? remaining : std::max<uint64_t>(sm.n, (target / m) - r.below(1000000) + (i ? r.below(1000) : 0));
+    remaining -= share;
+    UIn& in = ins[i];
+    try {
+      auto b = sk->serialize();
+      std::memcpy(b.data() + 8, &share, sizeof share);
+      if (r.coin()) in.sk.reset(new VO(VO::deserialize(b.data(), b.size())));
+      else { std::stringstream ss(std::ios::in | std::ios::out | std::ios::binary); ss.write(reinterpret_cast<const char*>(b.data()), static_cast<std::streamsize>(b.size())); in.sk.reset(new VO(VO::deserialize(ss))); }
+    } catch (const std::exception& e) { checked(); fail("sketch|deserialize|valid-image-with-huge-n-rejected", d + " n=" + std::to_string(share) + " what=" + e.what()); return; }
+    VF_CHECK(in.sk->get_n() == share, "sketch|deserialize|huge-n-not-restored", d + " want=" + std::to_string(share) + " got=" + std::to_string(in.sk->get_n()));
+    in.n = share; in.total = sm.total; in.sampling = true; in.take(ro);
+    d += "(k=" + std::to_string(f.k) + ",n=" + std::to_string(share) + ")";
+  }
+  UModel um;
+  uint64_t tot_samples = 0; for (auto& in : ins) tot_samples += in.sample_ids.size();
+  um.max_k = variant == 0 ? std::max<uint32_t>(2, common_k / 2) : static_cast<uint32_t>(tot_samples + 1 + r.below(20));
+  d += " max_k=" + std::to_string(um.max_k);
+  describe(d);
+  VU u(um.max_k);
+  VO last(1); bool have = false;
+  auto path_count = [&](const VU& un, uint64_t n) {
+    if (n < P32) return;
+    const bool marks = un.gadget_.num_marks_in_h_ > 0;
+    const bool pseudo = marks && un.gadget_.r_ == 0 && un.gadget_.num_marks_in_h_ == un.outer_tau_denom_;
+    count(marks ? (pseudo ? "huge_n_result_pseudo_exact_n_ge_2p32" : "huge_n_result_migrate_n_ge_2p32") : "huge_n_result_simple_n_ge_2p32");
+    if (n >= P33) count("huge_n_result_n_ge_2p33");
+  };
+  for (size_t i = 0; i < m; ++i) {
+    try { if (r.coin()) u.update(*ins[i].sk); else { VO tmp(*ins[i].sk); u.update(std::move(tmp)); } }
+    catch (const std::exception& e) { checked(); fail("union|update|throws", d + " what=" + e.what()); return; }
+    um.add(ins[i]);
+    path_count(u, um.n);
+    have = check_union_result(u, um, "huge-n update", &last, nullptr);
+    if (!have) return;
+    if (r.chance(0.3)) {   // the union itself through an image
+      try { VU t = union_round_trip(u, r); path_count(t, um.n); if (!check_union_result(t, um, "huge-n union round trip", nullptr, nullptr)) return; }
+      catch (const std::exception& e) { checked(); fail("union|round-trip|throws", d + " what=" + e.what()); return; }
+    }
+  }
+  count("huge_n_union_cases");
+  if (um.n == P32 - 1 || um.n == P33 - 1) count("huge_n_just_below_power"); else if (um.n == P32 || um.n == P33) count("huge_n_at_power"); else count("huge_n_above_power");
+  // the result through an image
+  try {
+    VO dres = round_trip(last, r, "union|result");
+    ReadOut ro = read_out(dres);
+    VF_CHECK(dres.get_n() == um.n, "union|result|round-trip|n", d + " want=" + std::to_string(um.n) + " got=" + std::to_string(dres.get_n()));
+    VF_CHECK(close_rel(ro.sum, um.total, REL), "union|result|round-trip|total-weight", d + " sum=" + str(static_cast<double>(ro.sum)));
+    count("huge_n_result_round_trip");
+  } catch (const std::exception& e) { checked(); fail("union|result|round-trip|throws", d + " what=" + e.what()); }
+  // roll-up: the result (huge n) and one more huge input into a second union: n keeps adding up
+  {
+    UIn rin; rin.n = um.n; rin.total = um.total; { ReadOut ro = read_out(last); rin.take(ro); }
+    UModel um2; um2.max_k = static_cast<uint32_t>(r.range(2, 200));
+    for (uint64_t id : um.allowed) allowed_flag[id] = 0;
+    VU u2(um2.max_k);
+    try {
+      u2.update(last); um2.add(rin); path_count(u2, um2.n);
+      if (!check_union_result(u2, um2, "huge-n roll-up: result fed", nullptr, nullptr)) return;
+      u2.update(*ins[0].sk); um2.add(ins[0]);   // same items again is fine for n and weight, but not for the distinctness clause:
+    } catch (const std::exception& e) { checked(); fail("union|update|throws", d + " roll-up what=" + e.what()); return; }
+    try {
+      VO r2 = u2.get_result();
+      ReadOut ro = read_out(r2);
+      VF_CHECK(r2.get_n() == um2.n, "union|result|n-not-sum-of-input-n", d + " roll-up want=" + std::to_string(um2.n) + " got=" + std::to_string(r2.get_n()));
+      VF_CHECK(close_rel(ro.sum, um2.total, REL), "union|result|total-weight-not-preserved", d + " roll-up sum=" + str(static_cast<double>(ro.sum)) + " total=" + str(static_cast<double>(um2.total)));
+      count("huge_n_roll_up");
+    } catch (const std::exception& e) { checked(); fail("union|get_result|throws", d + " roll-up what=" + e.what()); }
+    um2.clear();
+  }
+  um.clear();
+}
+
 // ---------------------------------------------------------------- unbiasedness cells
 struct Cell { int n; int k; int kind; int split; uint32_t max_k; };   // split 0 = single sketch; else number of sketches unioned
 static const Cell CELLS[] = {
@@ -930,7 +1027,8 @@ void run_case(uint64_t idx, Rng& r) {
   const uint64_t s = r.next();
   random_utils::rand.seed(s);
   random_utils::random_bit.seed(static_cast<uint32_t>(s));
-  if (r.chance(0.55)) stream_case(r); else union_case(r);
+  if (r.chance(0.04)) huge_n_union_case(r);
+  else if (r.chance(0.55)) stream_case(r); else union_case(r);
 }
 
 } // namespace vf
